@@ -93,8 +93,14 @@ Definition check_image (layers : list (list entry)) : bool :=
   (if D cfg_default im then agree_everywhere cfg_default im else true) &&
   (if D_weak cfg_default im then agree_weakly cfg_default im else true).
 
-Definition check_all_2x2 : bool :=
-  forallb (fun l0 => forallb (fun l1 => check_image [l0; l1]) (layer_choices "new" 2)) (layer_choices "old" 2).
+Definition forallb2 {A B} (f : A -> B -> bool) (la : list A) (lb : list B) : bool :=
+  forallb (fun a => forallb (f a) lb) la.
+
+Definition check_pair (l0 l1 : list entry) : bool := check_image [l0; l1].
+Definition old_layers : list (list entry) := layer_choices "old" 2.
+Definition new_layers : list (list entry) := layer_choices "new" 2.
+
+Definition check_all_2x2 : bool := forallb2 check_pair old_layers new_layers.
 
 Definition check_all_3x1 : bool := forallb check_image layers3.
 
